@@ -31,6 +31,28 @@ def edit(r, p, kinds=None):
     return ed, n
 
 
+def edit_or_revert(r, p, past, kinds=None, p_revert=0.25):
+    """An edit, or -- A -> B -> A -- the return of a function to an earlier edition of itself (the text the
+    process has already seen once).  `past` maps name -> earlier editions."""
+    cands = [(nm, old) for nm, olds in sorted(past.items()) for old in olds
+             if vprogs.node(p, nm) is not None and vprogs.node(p, nm)["kind"] == old["kind"] and vprogs.node(p, nm) != old]
+    if cands and r.random() < p_revert:
+        nm, old = r.choice(cands)
+        cur = vprogs.node(p, nm)
+        past.setdefault(nm, []).append(copy.deepcopy(cur))
+        new = copy.deepcopy(old)
+        if new.get("explicit") is not None or cur.get("explicit") is not None:
+            new["explicit"] = None if cur.get("explicit") is None else "e%d" % (int(cur["explicit"][1:]) + 1)
+        p["nodes"][p["nodes"].index(cur)] = new
+        fix_explicit(p)
+        return {"edit": "revert", "name": nm}, new
+    before = {n["name"]: copy.deepcopy(n) for n in p["nodes"]}
+    ed, n = edit(r, p, kinds)
+    if n["kind"] in ("mem", "plain") and before.get(n["name"]) is not None and before[n["name"]] != n:
+        past.setdefault(n["name"], []).append(before[n["name"]])
+    return ed, n
+
+
 def history_c01(r, quick):
     p0 = vprogs.random_prog(r, nmem=r.choice([2, 3, 3, 4]), nplain=r.choice([1, 2]), nvar=2, hidden_p=0.2)
     if r.random() < 0.3:
@@ -41,8 +63,9 @@ def history_c01(r, quick):
     p = copy.deepcopy(p0)
     mems = [n["name"] for n in p["nodes"] if n["kind"] == "mem"]
     steps = [{"do": "proc", "hashseed": "0"}, {"do": "call", "name": "m1"}]
+    past = {}
     for _ in range(r.randint(2, 4)):
-        ed, n = edit(r, p)
+        ed, n = edit_or_revert(r, p, past)
         steps.append({"do": "set", "node": copy.deepcopy(n), "why": ed})
         if r.random() < 0.5:
             steps.append({"do": "proc", "hashseed": "0"})                       # cross-process delivery
@@ -91,12 +114,13 @@ def history_c13(r, quick):
     p = copy.deepcopy(p0)
     mems = [n["name"] for n in p["nodes"] if n["kind"] == "mem"]
     steps = [{"do": "proc", "hashseed": "0"}]
+    past = {}
     if r.random() < 0.7:
         steps.append({"do": "query", "name": r.choice(mems), "truth": True})
     for _ in range(r.randint(2, 5)):
         x = r.random()
         if x < 0.55:
-            ed, n = edit(r, p, ["slot", "slot", "var", "var_mutate", "addref", "delref"])
+            ed, n = edit_or_revert(r, p, past, ["slot", "slot", "var", "var_mutate", "addref", "delref"])
             how = "reexec" if n["kind"] != "var" else ("mutate" if ed["edit"] == "var_mutate" else "setvar")
             steps += [{"do": "set", "node": copy.deepcopy(n), "why": ed}, {"do": "deliver", "how": how, "name": n["name"]}]
         elif x < 0.65 and vprogs.node(p, "u1") is None and any(q["to"] == "u1" for n in p["nodes"] if "refs" in n for q in n["refs"]):
@@ -125,22 +149,39 @@ def history_c13(r, quick):
     return {"prog": p0, "steps": steps}
 
 
-def alias_rebind(r, p, steps):
-    """alias_<x> = <y>: a module attribute that held memento function x is assigned another existing one"""
+def alias_rebind(r, p, steps, collide=False):
+    """alias_<x> = <y>: a module attribute that held memento function x is assigned another existing one.
+    collide=False avoids, collide=True requires, the situation of the open finding
+    C13-two-symbols-one-function: a function that calls through the alias also refers to the old or the new
+    target by another name (the two references share one hash rule, so only one of the symbols is watched)."""
     aliased = sorted({q["to"] for n in p["nodes"] if "refs" in n for q in n["refs"] if q["form"] == "alias"})
     mems = [n["name"] for n in p["nodes"] if n["kind"] == "mem" and n["name"] != "m1"]
     if not aliased or len(mems) < 1:
         return False
+    amap = dict((a[0], a[1]) for a in p.get("aliases", []))
     x = r.choice(aliased)
-    cur = dict((a[0], a[1]) for a in p.get("aliases", [])).get("alias_" + x, x)
-    users = [n["name"] for n in p["nodes"] if "refs" in n and any(q["form"] == "alias" and q["to"] == x for q in n["refs"])]
-    cands = [y for y in mems if y != cur and not reaches(p, y, "m1") and not any(reaches(p, y, u) for u in users)]
+    cur = amap.get("alias_" + x, x)
+    users = [n for n in p["nodes"] if "refs" in n and any(q["form"] == "alias" and q["to"] == x for q in n["refs"])]
+
+    def other_targets(u):
+        out = set()
+        for q in u["refs"]:
+            if q["form"] == "alias" and q["to"] == x:
+                continue
+            out.add(amap.get("alias_" + q["to"], q["to"]) if q["form"] == "alias" else q["to"])
+        return out | set(u.get("hidden", []))
+
+    def collides(y):
+        return any(y in other_targets(u) or cur in other_targets(u) for u in users)
+
+    cands = [y for y in mems if y != cur and not reaches(p, y, "m1") and not any(reaches(p, y, u["name"]) for u in users)
+             and collides(y) == bool(collide)]
     if not cands:
         return False
     y = r.choice(cands)
     p.setdefault("aliases", [])
     p["aliases"] = [a for a in p["aliases"] if a[0] != "alias_" + x] + [["alias_" + x, y]]
-    steps.append({"do": "alias", "name": "alias_" + x, "target": y})
+    steps.append({"do": "alias", "name": "alias_" + x, "target": y, "collision": bool(collide)})
     return True
 
 
@@ -166,7 +207,7 @@ def reaches(p, src, dst):
     return False
 
 
-def history_alias(r, prop):
+def history_alias(r, prop, collide=False):
     """Directed: a dependant's version is queried (cached), then the alias it calls through is rebound to
     another memento function that already exists -- no definition is executed, nothing else changes --
     and the dependant is queried / called again.  (Version.tla: KF_AliasBlind counterexample shape.)"""
@@ -181,14 +222,41 @@ def history_alias(r, prop):
                     steps.append({"do": "query", "name": n["name"]})
         if not reaches_alias(p, "m1"):
             continue
-        if not alias_rebind(r, p, steps):
+        if not alias_rebind(r, p, steps, collide):
             continue
         if prop == "C01":
             steps.append({"do": "call", "name": "m1"})
         else:
             steps.append({"do": "query", "name": "m1", "truth": True})
-            if r.random() < 0.5 and alias_rebind(r, p, steps):
-                steps.append({"do": "query", "name": "m1", "truth": True})
+        if (collide or r.random() < 0.5) and alias_rebind(r, p, steps, collide):
+            steps.append({"do": "call", "name": "m1"} if prop == "C01" else {"do": "query", "name": "m1", "truth": True})
+        return {"prog": p0, "steps": steps, "alias_collision": bool(collide)}
+    return GEN[prop](r, True)
+
+
+def history_aba(r, prop):
+    """Directed: a function m1 depends on goes A -> B -> A inside one process (each edition re-executed or the
+    module reloaded), with m1 called / queried at every stage: the third answer must be the first one again
+    and the second a different one."""
+    for _ in range(50):
+        p0 = vprogs.random_prog(r, nmem=r.choice([2, 3]), nplain=r.choice([1, 2]), nvar=1, hidden_p=0.0)
+        p = copy.deepcopy(p0)
+        deps = [n for n in p["nodes"] if n["kind"] in ("mem", "plain") and n["name"] != "m1" and reaches(p, "m1", n["name"])]
+        if not deps:
+            continue
+        ask = (lambda: {"do": "call", "name": "m1"}) if prop == "C01" else (lambda: {"do": "query", "name": "m1", "truth": True})
+        steps = [{"do": "proc", "hashseed": "0"}, ask()]
+        n = r.choice(deps)
+        a = copy.deepcopy(n)
+        for edition in ("B", "A", "B")[: r.choice([2, 2, 3])]:
+            if edition == "B":
+                n["slots"][r.choice(vprogs.SLOTS)] += 1
+                b = copy.deepcopy(n)
+            else:
+                n.update(copy.deepcopy(a))
+            steps.append({"do": "set", "node": copy.deepcopy(n), "why": {"edit": "aba_" + edition, "name": n["name"]}})
+            steps.append({"do": "deliver", "how": r.choice(["reexec", "reexec", "reload"]), "name": n["name"]})
+            steps.append(ask())
         return {"prog": p0, "steps": steps}
     return GEN[prop](r, True)
 
@@ -253,7 +321,8 @@ def run(prop, tier):
             from . import check_closure
             return check_closure.run_body(rep, r, wd, quick)
         n = NJOBS[prop][0 if quick else 1]
-        jobs = [history_alias(r, prop) if prop in ("C01", "C13") and i % 6 == 5 else GEN[prop](r, quick) for i in range(n)]
+        jobs = [history_alias(r, prop, collide=(i % 12 == 11)) if prop in ("C01", "C13") and i % 6 == 5 else
+                history_aba(r, prop) if prop in ("C01", "C13") and i % 6 == 2 else GEN[prop](r, quick) for i in range(n)]
         traces = common.run_jobs("ver_worker.py", jobs, wd, timeout=3000)
         common.tick("executed %d histories" % len(traces))
         payload = [{"cfg": {"prop": prop}, "ev": merge_truth(t["ev"])} for t in traces]
@@ -288,7 +357,8 @@ def run(prop, tier):
             sets = [s for s in jobs[rj["tid"] - 1]["steps"] if s["do"] == "set"]
             kinds = sorted({(s.get("why") or {}).get("edit", "?") + ("/" + s["why"]["slot"] if (s.get("why") or {}).get("slot") else "") for s in sets})
             facts = {"property": prop, "op": e.get("op"), "name": e.get("name"), "how": e.get("how", ""), "why": sorted(rj["why"]),
-                     "exc": (e.get("exc") or "")[:100], "edit_kinds_in_history": kinds, "proc": e.get("proc")}
+                     "exc": (e.get("exc") or "")[:100], "edit_kinds_in_history": kinds, "proc": e.get("proc"),
+                     "alias_collision": bool(jobs[rj["tid"] - 1].get("alias_collision"))}
             rep.violation(facts, {"job": jobs[rj["tid"] - 1], "events": evs, "accepted_prefix": rj["prefix"],
                                   "failed_clauses": sorted(rj["why"])})
         rep.assumptions += ["the plain twin (same source without decorators) defines 'what an un-memoized execution returns'",
